@@ -544,6 +544,8 @@ impl Range {
                                 mut content_range_list: Vec<ContentRange>)
         -> Result<Vec<ContentRange>, String> {
 
+        // one loop iteration per part (or skipped line): a call per part needs a stack frame per part
+        loop {
         let boxed_line = Range::parse_line_as_bytes(cursor);
         if boxed_line.is_err() {
             let message = boxed_line.err().unwrap();
@@ -707,13 +709,7 @@ impl Range {
             content_range_list.push(content_range);
         }
 
-        let boxed_result = Range::_parse_multipart_body(cursor, content_range_list);
-        return if boxed_result.is_ok() {
-            Ok(boxed_result.unwrap())
-        } else {
-            let error = boxed_result.err().unwrap();
-            Err(error)
-        }
+        } // next part, with the same cursor and content_range_list
 
     }
 
